@@ -32,7 +32,14 @@ RULE = ("seeded generator. SOCKS5: byte scripts built from greeting / USER-PASS 
         "(05 FF, bad version, rejected / malformed USER/PASS) and pipeline a well-formed request at every offset the server can have "
         "consumed; every script under several "
         "chunkings (whole, byte-wise, random, with zero-length reads) and ALL chunkings of a short authenticated prefix. "
-        "HTTP: requests serialised from structured cases (CONNECT / GET, keep-alive sequences) with ~25 Proxy-Authorization variants "
+        "HTTP: raw request bytes on the connection, net/http decides what they are: EVERY method (GET POST HEAD OPTIONS PUT DELETE CONNECT and an "
+        "extension method) x every request-target class - origin-form (/p, /, //host/p), asterisk-form, absolute-form (http / https / other "
+        "schemes, with port, empty port, upper case, empty host http:///x, opaque http:x), authority-form with / without port, empty host "
+        "(:80, :, the empty target, ?q), userinfo, IPv6 literals (with zone), loopback names, malformed targets - x credential state "
+        "(no Proxy-Authorization, wrong, malformed, accepted), x Host field (same, other, absent, empty, IPv6), alone, in front of pipelined "
+        "bytes / a pipelined second request, behind an accepted keep-alive request and as third request; HTTP/1.0 and bodies on POST/PUT; "
+        "the harness reports what http.ReadRequest made of every request (method, target, form, URL.Scheme, URL.Host, req.Host) and the model "
+        "is run on exactly that. Further: requests serialised from structured cases (CONNECT / GET, keep-alive sequences) with ~25 Proxy-Authorization variants "
         "(case, spacing, bad base64, padding, no colon, several colons, U+0130 in the scheme name), pipelined tails and split points "
         "inside / at / behind the header block; CONNECT requests that declare a body (Content-Length 0 / n / more than follows, "
         "Transfer-Encoding: chunked, both) in front of tunnel payload, split at every point. cachedConn / connWithOneByte: random buffers, chunkings and read sizes incl. zero. "
@@ -41,18 +48,22 @@ RULE = ("seeded generator. SOCKS5: byte scripts built from greeting / USER-PASS 
         "synctest bubble, observed at every quiescent point and replayed against the LTS. Non-trivial = an upstream was opened, or "
         "credentials were rejected, or a connection was handed over / closed by the mux. Distinct = distinct JSON case.")
 ASSUMPTIONS = [
-    "net/http.ReadRequest, net/url and textproto are not modelled: HTTP requests reach the model structured (method, target address, raw Proxy-Authorization value); the harness serialises them canonically and compares on every case",
+    "net/http.ReadRequest, net/url's parser and textproto are not modelled: a request reaches the model as net/http parsed it (method, raw request-target, its form, URL.Scheme, URL.Host, req.Host, raw Proxy-Authorization value, keep-alive condition) - the harness runs http.ReadRequest over the same byte stream independently of the server and reports the result; URL.Hostname/Port, net.SplitHostPort, net.JoinHostPort and the Transport's canonicalAddr ARE modelled and compared on every case (ASCII hosts)",
+    "the scripted upstream of a forwarded plain request answers with Connection: close and does not speak TLS (an https:// request fails after its one dial); schemes other than http/https are refused by net/http before any dial",
     "writes to the local client succeed (a failed write only ends the connection earlier, before any upstream open)",
     "the base listener of the shared port fails only after it was closed by the mux itself (a spontaneous base Accept error is outside the property's events)",
     "each lock/unlock pair and each channel operation of mux.go is one atomic section of the LTS (read from the source; supported by -race in the thorough tier)",
     "plain-HTTP forwarding through http.Client/http.Transport is observed only at HyClient.TCP (one dial per request: the scripted upstream answers Connection: close)",
+    "the client's address (conn.RemoteAddr) is varied by the harnesses (loopback, private, link-local, public, v4/v6) but is not an input of the model: the code reads it only for logging",
 ]
 TRUSTED = ["modelled rather than verified: app/internal/socks5/server.go, app/internal/http/server.go, app/internal/proxymux/mux.go and the three "
            "wire readers of txthinking/socks5 (hand transcription in coq/model/C18_Inbounds.v, coq/lib/Base64.v)"]
-PER_SHARD = 90
+PER_SHARD = 150
 EXTRA_TARGETS = ["corr/C18_Corr.vo"]
 
 USER, PASS = b"user", b"pa:ss"
+# the client's address as the inbound sees it (conn.RemoteAddr): the gate must not depend on it
+PEERS = ["", "", "127.0.0.1", "10.0.0.7", "192.168.1.5", "172.16.9.9", "169.254.3.3", "203.0.113.9", "::1", "fe80::1", "fd00::5", "2001:db8::9"]
 
 
 def hx(b):
@@ -181,7 +192,7 @@ def gen_socks(rng, tier):
     def add(auth, stream, tail, nchunk, dudp=False, dial=True, udp=True):
         for ch in chunkings(rng, stream, nchunk) if stream else [[]]:
             cases.append({"k": "socks", "auth": auth, "user": hx(USER), "pass": hx(PASS), "dudp": dudp, "dial": dial,
-                          "udp": udp, "chunks": [hx(c) for c in ch], "tail": tail})
+                          "udp": udp, "chunks": [hx(c) for c in ch], "tail": tail, "peer": rng.choice(PEERS)})
 
     greets = ["none", "up", "both", "both2", "other", "badver", "zero", "lying", "many", "rand"]
     ups = ["right", "wrongpw", "wronguser", "prefix", "badver", "ulen0", "plen0", "long", "rand"]
@@ -236,7 +247,8 @@ def gen_socks(rng, tier):
                 styles = [styles[0], rng.choice(styles[1:])]
             for ch in styles:
                 cases.append({"k": "socks", "auth": auth, "user": hx(USER), "pass": hx(PASS), "dudp": rng.random() < 0.2,
-                              "dial": rng.random() < 0.9, "udp": rng.random() < 0.9, "chunks": [hx(c) for c in ch], "tail": -1})
+                              "dial": rng.random() < 0.9, "udp": rng.random() < 0.9, "chunks": [hx(c) for c in ch], "tail": -1,
+                              "peer": rng.choice(PEERS)})
 
     for _ in range(scale):
         for auth in (True, False):
@@ -368,7 +380,7 @@ def gen_http(rng, tier):
             lastc = reqs[-1][1]["connect"]
             cases.append({"k": "http", "auth": auth, "user": hx(user), "pass": hx(pw), "dial": dial,
                           "chunks": [hx(c) for c in ch], "status": [r[1]["st"] for r in reqs if not r[1]["connect"]],
-                          "tail": h if lastc else -1, "reqs": [r[1] for r in reqs], "h": h})
+                          "tail": h if lastc else -1, "reqs": [r[1] for r in reqs], "h": h, "peer": rng.choice(PEERS)})
 
     full_done = [0]      # every split point of the whole stream: once per framing (thorough tier)
     for _ in range(scale):
@@ -526,7 +538,7 @@ def gen_http_forms(rng, tier):
         else:
             ch = chunkings(rng, stream, 1)[0]
         cases.append({"k": "http", "auth": auth, "user": hx(USER), "pass": hx(PASS), "dial": dial, "chunks": [hx(c) for c in ch],
-                      "status": [], "tail": -1, "reqs": [g for _, g in parts], "h": 0, "cls": cls})
+                      "status": [], "tail": -1, "reqs": [g for _, g in parts], "h": 0, "cls": cls, "peer": rng.choice(PEERS)})
 
     def tail_for(method):
         r = rng.random()
@@ -878,6 +890,11 @@ def klass(c, o):
             extra = ":ff"
         if any(e["t"] == "relay" and e["hex"] for e in ev):
             extra += ":relay"
+        if k == "http" and o.get("parsed") is not None:
+            # form of the last request net/http parsed (the one the connection ended on), CONNECT or plain
+            ps = o["parsed"]
+            extra += ":" + (("C-" if ps[-1]["method"] == "434f4e4e454354" else "P-") + ps[-1]["form"] +
+                            ("-nohost" if not ps[-1]["uhost"] else "") if ps else "unparsed")
         return "%s:%s:%s%s" % (k, au, up, extra)
     if k in ("cached", "onebyte", "muxd1", "muxd2"):
         return k
@@ -1065,7 +1082,9 @@ def replay(ctx, path):
 
 
 LEVEL_TEXT = ("Machine-checked Coq theorems over a hand-written Gallina model of the SOCKS5 negotiation (incl. the txthinking/socks5 wire "
-              "readers), the HTTP proxy's Proxy-Authorization gate and CONNECT hand-over (cachedConn), and the shared-port mux as a labelled "
+              "readers), the HTTP proxy's dispatch / handleConnect / handleRequest on requests as net/http parses them (every method, every request-target "
+              "form, empty and non-empty URL hosts; Proxy-Authorization gate, CONNECT hand-over through cachedConn, 400 for scheme-less plain requests, "
+              "dial addresses), and the shared-port mux as a labelled "
               "transition system over its atomic sections (connWithOneByte included): for every client byte script and chunking, no upstream "
               "TCP/UDP open without credentials AuthFunc accepted; pipelined bytes reach the upstream unmodified for every read-size sequence; "
               "every run of the mux hands a connection to at most one sub-listener, the one its first byte selects. The model is tied to /repo "
